@@ -23,7 +23,7 @@ def s_ceil(ex, s_, p, n, d, out):
 def check_dir(ex, p):
     import envstubs
     st = envstubs.get_str(ex, p).norm()
-    e = envstubs.env(ex); k = 'dir:' + repr(st)
+    e = envstubs.env(ex); k = ('dir', envstubs.strid(st))
     if k not in e.exists: e.exists[k] = z3.Bool('direxists!%d' % len(e.exists))
     ex.events.append(('checkdir', st))
     b = e.exists[k]
